@@ -22,8 +22,8 @@
 //	          a slice field of the clone may only be assigned `append(<clone>.<same field>, …)`; With* must not call
 //	          newBuffer/freeBuffer (pooled memory must not become part of a handler)
 //	Logger    With/WithGroup must return `l` or `&Logger{…}` and never assign through `l`
-//	Handle    `buf := newBuffer()`, `defer freeBuffer(buf)`, `h.outMu.Lock()`, `defer h.outMu.Unlock()` (or Unlock after the
-//	          Write) and exactly one `h.out.Write(*buf)` must be TOP-LEVEL statements of Handle in this order; any of them
+//	Handle    `buf := newBuffer()`, `defer freeBuffer(buf)`, `h.outMu.Lock()`, `defer h.outMu.Unlock()` (an explicit Unlock after the
+//	          Write keeps write_under_lock but makes unlock_deferred false: a panicking Write would leave the mutex locked) and exactly one `h.out.Write(*buf)` must be TOP-LEVEL statements of Handle in this order; any of them
 //	          inside if/for/switch/go/defer/func literal makes the fact false; no other use of h.out; Handle and the
 //	          package-level functions / methods reachable from it assign to no handler field and to no package-level
 //	          variable (sync/atomic calls and method calls, e.g. on a sync.Pool, are not assignments); no method of the
@@ -510,6 +510,7 @@ type chainFacts struct {
 
 type concFacts struct {
 	SingleWrite, WriteUnderLock, CloneSharesMu, BufFromPool, FreeDeferred, HandleReadonly, MuOutImmutable bool
+	UnlockDeferred                                                                                        bool
 	Notes                                                                                                 []string
 }
 
@@ -1257,6 +1258,15 @@ func concOf(p *pkg, typ string) concFacts {
 			unrecognised("%s.%s: the mutex is locked but not unlocked by a top-level defer before / Unlock after the Write", typ, where)
 		}
 		f.WriteUnderLock = under && released
+		// deferred: the Unlock also runs when the destination's Write panics
+		for _, d := range info.dunlock {
+			if d > info.lock[0] && d < info.wr[0] {
+				f.UnlockDeferred = true
+			}
+		}
+		if released && !f.UnlockDeferred {
+			f.Notes = append(f.Notes, where+": the Unlock is not deferred and the call of the user-supplied Writer lies between Lock and Unlock: a Write that panics leaves the mutex locked")
+		}
 	}
 	// Handle and everything reachable from it assigns to no handler field and to no package-level variable
 	w := scanWrites(p, r, h.decl)
@@ -1755,9 +1765,9 @@ func analyse(repo, mode string) (string, []string, []string) {
 		out.WriteString("From Glb Require Import Model.LoggerConc.\n")
 		for _, t := range handlerTypes {
 			f := concOf(p, t.typ)
-			fmt.Fprintf(&out, "Definition %s_conc_facts : conc_facts := mkConcFacts %s %s %s %s %s %s %s %s %s %s %s %s %s.\n", t.name,
+			fmt.Fprintf(&out, "Definition %s_conc_facts : conc_facts := mkConcFacts %s %s %s %s %s %s %s %s %s %s %s %s %s %s.\n", t.name,
 				cb(f.SingleWrite), cb(f.WriteUnderLock), cb(f.CloneSharesMu), cb(f.BufFromPool), cb(f.FreeDeferred), cb(f.HandleReadonly),
-				cb(g.ResetBeforePut), cb(g.RefusesOversized), cb(g.PoolNewEmpty), cb(g.GateFirst), cb(g.LevelStored), cb(g.EnabledIsGe), cb(f.MuOutImmutable))
+				cb(g.ResetBeforePut), cb(g.RefusesOversized), cb(g.PoolNewEmpty), cb(g.GateFirst), cb(g.LevelStored), cb(g.EnabledIsGe), cb(f.MuOutImmutable), cb(f.UnlockDeferred))
 			for _, n := range f.Notes {
 				notes = append(notes, t.typ+": "+n)
 			}
